@@ -115,12 +115,30 @@ Proof.
   rewrite seq_nth by lia. cbn. f_equal. lia.
 Qed.
 
+Lemma adjust_forward : forall len b, 0 <= b <= len -> adjust_bound len 1 b = b.
+Proof.
+  intros len b H. unfold adjust_bound. change (1 <? 0) with false. cbv iota.
+  destruct (Z.ltb_spec b 0); [lia|]. destruct (Z.leb_spec len b); lia.
+Qed.
+
+Lemma adjust_backward_in : forall len b, 0 <= b < len -> adjust_bound len (-1) b = b.
+Proof.
+  intros len b H. unfold adjust_bound.
+  destruct (Z.ltb_spec b 0); [lia|]. destruct (Z.leb_spec len b); lia.
+Qed.
+
+(* a stop of -1 means "the last element" *)
+Lemma adjust_backward_minus1 : forall len, 0 < len -> adjust_bound len (-1) (-1) = len - 1.
+Proof.
+  intros len H. unfold adjust_bound. change (-1 <? 0) with true. cbv iota.
+  destruct (Z.ltb_spec (-1 + len) 0); lia.
+Qed.
+
 Lemma slice_forward : forall len a b, 0 <= a -> a <= b -> b <= len ->
   slice_indices len a b 1 = zrange a (b - a).
 Proof.
-  intros len a b Ha Hab Hb. unfold slice_indices, adjust_bound. cbn [Z.eqb Z.ltb Z.compare].
-  destruct (Z.ltb_spec a 0); [lia|]. destruct (Z.ltb_spec b 0); [lia|].
-  destruct (Z.leb_spec len a), (Z.leb_spec len b); try reflexivity; f_equal; lia.
+  intros len a b Ha Hab Hb. unfold slice_indices.
+  rewrite !adjust_forward by lia. reflexivity.
 Qed.
 
 (* the defect: for the last group of a reversed slice axis the stop is -1,
@@ -132,16 +150,15 @@ Proof.
   intros n d Hn Hd. unfold group_sel. cbn [Z.eqb].
   set (g := (n - 1) / d).
   assert (Hg1 : d * g <= n - 1) by (apply Z.mul_div_le; lia).
+  assert (Hg0 : 0 <= d * g) by (apply Z.mul_nonneg_nonneg; [lia | apply Z.div_pos; lia]).
   assert (Hg2 : n - 1 < d * (g + 1)).
   { pose proof (Z.mod_pos_bound (n - 1) d Hd). pose proof (Z.div_mod (n - 1) d ltac:(lia)). subst g. lia. }
   replace (Z.min (d * (g + 1)) n) with n by lia.
   replace (n - n - 1) with (-1) by lia.
-  unfold slice_indices, adjust_bound. cbn [Z.eqb Z.ltb Z.compare].
-  destruct (Z.ltb_spec (n - d * g - 1) 0); [lia|].
-  destruct (Z.leb_spec n (n - d * g - 1)); [lia|].
-  destruct (Z.ltb_spec (-1 + n) 0); [lia|].
-  cbn. apply f_equal with (f := map (fun i => n - d * g - 1 - i)).
-  apply zrange_nonpos. lia.
+  unfold slice_indices. rewrite adjust_backward_minus1 by lia.
+  rewrite adjust_backward_in by lia.
+  change (-1 =? 1) with false. change (-1 =? -1) with true. cbv iota.
+  rewrite zrange_nonpos by lia. reflexivity.
 Qed.
 
 (* earlier groups of a reversed axis are read in the intended (reversed) order *)
@@ -150,11 +167,147 @@ Lemma reversed_inner_group_lemma : forall n d g, 0 < d -> 0 <= g -> d * (g + 1) 
 Proof.
   intros n d g Hd Hg Hlt. unfold group_sel. cbn [Z.eqb].
   replace (Z.min (d * (g + 1)) n) with (d * (g + 1)) by lia.
-  unfold slice_indices, adjust_bound. cbn [Z.eqb Z.ltb Z.compare].
-  destruct (Z.ltb_spec (n - d * g - 1) 0); [nia|].
-  destruct (Z.leb_spec n (n - d * g - 1)); [nia|].
-  destruct (Z.ltb_spec (n - d * (g + 1) - 1) 0); [nia|].
-  destruct (Z.leb_spec n (n - d * (g + 1) - 1)); [nia|].
-  cbn. replace (n - d * g - 1 - (n - d * (g + 1) - 1)) with d by lia.
+  unfold slice_indices. rewrite !adjust_backward_in by nia.
+  change (-1 =? 1) with false. change (-1 =? -1) with true. cbv iota.
+  replace (n - d * g - 1 - (n - d * (g + 1) - 1)) with d by lia.
   apply map_ext. intro i. lia.
 Qed.
+
+(* ================= setup, for each of the 48 codes ================= *)
+
+Lemma code_eqb_eq : forall a b, code_eqb a b = true -> a = b.
+Proof.
+  induction a as [|x a IH]; intros [|y b] H; try reflexivity; try discriminate.
+  unfold code_eqb in H. cbn in H. apply andb_prop in H as [Hl Hf]. apply andb_prop in Hf as [Hx Hf].
+  apply N.eqb_eq in Hx. subst y. f_equal. apply IH. unfold code_eqb. cbn in Hl. rewrite Hl, Hf. reflexivity.
+Qed.
+
+Lemma in_table : forall code, existsb (code_eqb code) possible_axis_orientations = true ->
+  In code possible_axis_orientations.
+Proof.
+  intros code H. apply existsb_exists in H as (c & Hc & He). apply code_eqb_eq in He. subst c. exact Hc.
+Qed.
+
+Definition mkjob code sx sy sz cx cy cz nch dirs : job :=
+  {| j_code := code; j_size := [sx; sy; sz]; j_chunk := [cx; cy; cz]; j_nch := nch; j_dirs := dirs |}.
+
+Lemma setup_cases : forall code, In code possible_axis_orientations ->
+  forall sx sy sz cx cy cz nch dirs,
+  exists p0 p1 p2 i0 i1 i2 q w h n cw chh d,
+    setup (mkjob code sx sy sz cx cy cz nch dirs) =
+      Ok {| pr_p := (p0, p1, p2); pr_inv := (i0, i1, i2); pr_q := q;
+            pr_isize := (w, h, n); pr_ichunk := (cw, chh, d) |} /\
+    input_size_of code (sx, sy, sz) = Some (w, h, n) /\
+    i2 = (if slice_axis_forward code then 1 else -1) /\
+    In [p0; p1; p2] six_perms /\ invert_permutation [p0; p1; p2] = Ok q /\
+    permute [sx; sy; sz] [p0; p1; p2] = Ok [w; h; n] /\
+    permute [cx; cy; cz] [p0; p1; p2] = Ok [cw; chh; d] /\
+    (i0 = 1 \/ i0 = -1) /\ (i1 = 1 \/ i1 = -1) /\
+    (0 < sx -> 0 < sy -> 0 < sz -> 0 < w /\ 0 < h /\ 0 < n) /\
+    (0 < cx -> 0 < cy -> 0 < cz -> 0 < cw /\ 0 < chh /\ 0 < d).
+Proof.
+  intros code Hin sx sy sz cx cy cz nch dirs.
+  unfold possible_axis_orientations in Hin. cbn [In] in Hin.
+  repeat (destruct Hin as [<-|Hin];
+          [do 13 eexists; split; [vm_compute; reflexivity|];
+           split; [reflexivity|]; split; [reflexivity|];
+           split; [vm_compute; tauto|]; split; [vm_compute; reflexivity|];
+           split; [reflexivity|]; split; [reflexivity|];
+           split; [auto|]; split; [auto|]; split; intros; repeat split; assumption|]).
+  contradiction.
+Qed.
+
+(* ================= reversed slice axis: the run never completes ================= *)
+
+Lemma run_groups_ok_inv : forall pr j groups done ds,
+  run_groups pr j groups done = (ds, Ok tt) ->
+  forall g, In g groups ->
+    let '(w, h, n) := pr_isize pr in
+    let '(_, _, d) := pr_ichunk pr in
+    let '(_, _, inv2) := pr_inv pr in
+    check_dirs (j_dirs j) (map (fun dd => group_sel (d_files dd) n d inv2 g) (j_dirs j)) w h = Ok tt.
+Proof.
+  intros pr j groups. destruct pr as [[[p0 p1] p2] [[i0 i1] i2] q [[w h] n] [[cw chh] d]].
+  induction groups as [|g0 r IH]; intros done ds H g Hin; [contradiction|].
+  cbn [run_groups pr_isize pr_ichunk pr_inv] in H |- *.
+  destruct (check_dirs (j_dirs j) (map (fun dd => group_sel (d_files dd) n d i2 g0) (j_dirs j)) w h)
+    as [[]| | | | | |k] eqn:E; try (injection H as _ H; discriminate).
+  destruct (negb (sumZl (map dir_channels (j_dirs j)) =? j_nch j)); [injection H as _ H; discriminate|].
+  match type of H with (match ?wc with _ => _ end) = _ => destruct wc as [done' [[]| | | | | |k]] eqn:Ew end;
+    try (injection H as _ H; discriminate).
+  destruct Hin as [<-|Hin]; [exact E|].
+  exact (IH _ _ H g Hin).
+Qed.
+
+Lemma job_wf_fields : forall j, job_wf j = true ->
+  exists sx sy sz cx cy cz w h n d0 dr,
+    j = mkjob (j_code j) sx sy sz cx cy cz (j_nch j) (d0 :: dr) /\
+    0 < sx /\ 0 < sy /\ 0 < sz /\ 0 < cx /\ 0 < cy /\ 0 < cz /\
+    input_size_of (j_code j) (sx, sy, sz) = Some (w, h, n) /\
+    forallb (fun d => (d_files d =? n) && (d_w d =? w) && (d_h d =? h) && (0 <? dir_channels d)) (d0 :: dr) = true /\
+    sumZl (map dir_channels (d0 :: dr)) = j_nch j.
+Proof.
+  intros [code size chunk nch dirs] H. unfold job_wf in H. cbn [j_size j_chunk j_code j_dirs j_nch] in *.
+  destruct size as [|sx [|sy [|sz [|? ?]]]]; try discriminate.
+  destruct chunk as [|cx [|cy [|cz [|? ?]]]]; try discriminate.
+  repeat (apply andb_prop in H as [H ?]).
+  destruct (input_size_of code (sx, sy, sz)) as [[[w h] n]|] eqn:E; [|discriminate].
+  match goal with H1 : _ && _ && _ = true |- _ => apply andb_prop in H1 as [H1 Hs]; apply andb_prop in H1 as [Hd Hf] end.
+  destruct dirs as [|d0 dr]; [discriminate|].
+  exists sx, sy, sz, cx, cy, cz, w, h, n, d0, dr.
+  repeat match goal with Hx : (0 <? _) = true |- _ => apply Z.ltb_lt in Hx end.
+  apply Z.eqb_eq in Hs. repeat split; try assumption; reflexivity.
+Qed.
+
+Lemma reversed_never_completes_lemma : forall j,
+  existsb (code_eqb (j_code j)) possible_axis_orientations = true ->
+  slice_axis_forward (j_code j) = false -> job_wf j = true ->
+  snd (run j) <> Ok tt.
+Proof.
+  intros j Hc Hrev Hwf.
+  destruct (job_wf_fields j Hwf) as (sx & sy & sz & cx & cy & cz & w & h & n & d0 & dr & Ej & Hsx & Hsy & Hsz &
+                                      Hcx & Hcy & Hcz & Eis & Hdirs & Hch).
+  pose proof (in_table _ Hc) as Hin.
+  destruct (setup_cases _ Hin sx sy sz cx cy cz (j_nch j) (d0 :: dr))
+    as (p0 & p1 & p2 & i0 & i1 & i2 & q & w' & h' & n' & cw & chh & d & Es & Eis' & Ei2 & _ & _ & _ & _ & _ & _ &
+        Hpos & Hcpos).
+  rewrite Eis in Eis'. injection Eis' as <- <- <-.
+  rewrite Hrev in Ei2. subst i2.
+  destruct (Hpos Hsx Hsy Hsz) as (Hw & Hh & Hn). destruct (Hcpos Hcx Hcy Hcz) as (_ & _ & Hd).
+  unfold run. rewrite Hc. cbn [negb]. rewrite Ej at 1. rewrite Es. cbn [pr_isize pr_ichunk].
+  rewrite Ej. cbn [j_dirs mkjob].
+  assert (Hfiles : existsb (fun dd => negb (d_files dd =? n)) (d0 :: dr) = false).
+  { clear -Hdirs. induction (d0 :: dr) as [|x l IH]; [reflexivity|].
+    cbn [forallb existsb] in *. apply andb_prop in Hdirs as [Hx Hl].
+    repeat (apply andb_prop in Hx as [Hx ?]). rewrite Hx. cbn. apply IH. exact Hl. }
+  rewrite Hfiles.
+  intro Hok.
+  destruct (run_groups _ _ (zrange 0 (n_chunks n d)) []) as [ds res] eqn:Er.
+  cbn [snd] in Hok. subst res.
+  pose proof (run_groups_ok_inv _ _ _ _ _ Er ((n - 1) / d)) as Hg.
+  cbn [pr_isize pr_ichunk pr_inv j_dirs mkjob] in Hg.
+  assert (Hgin : In ((n - 1) / d) (zrange 0 (n_chunks n d))).
+  { apply in_zrange. unfold n_chunks. pose proof (Z.div_pos (n - 1) d ltac:(lia) Hd). lia. }
+  specialize (Hg Hgin). cbn [map check_dirs] in Hg.
+  cbn [forallb] in Hdirs. apply andb_prop in Hdirs as [Hd0 _].
+  repeat (apply andb_prop in Hd0 as [Hd0 ?]). apply Z.eqb_eq in Hd0. rewrite Hd0 in Hg.
+  rewrite (reversed_last_group_empty_lemma n d Hn Hd) in Hg. discriminate.
+Qed.
+
+Definition rai_witness : job :=
+  mkjob [82; 65; 73]%N 1 1 1 1 1 1 1 [{| d_files := 1; d_h := 1; d_w := 1; d_ch := None |}].
+
+Lemma reversed_last_group_refuted_lemma :
+  c15_guard rai_witness = false /\ job_wf rai_witness = true /\
+  run rai_witness = ([], Crash ValueError).
+Proof. repeat split; vm_compute; reflexivity. Qed.
+
+(* a larger witness: the first group is written, the last one aborts the run *)
+Definition lpi_witness : job :=
+  mkjob [76; 80; 73]%N 2 2 3 2 2 2 1 [{| d_files := 3; d_h := 2; d_w := 2; d_ch := None |}].
+
+Lemma reversed_partial_output_lemma :
+  map ck_coords (fst (run lpi_witness)) = [(0, 2, 0, 2, 0, 2)] /\ snd (run lpi_witness) = Crash ValueError /\
+  read_back (fst (run lpi_witness)) 0 0 0 0 = designated [76; 80; 73]%N (2, 2, 3) (j_dirs lpi_witness) 0 0 0 0 /\
+  read_back (fst (run lpi_witness)) 0 0 2 0 = None.
+Proof. repeat split; vm_compute; reflexivity. Qed.
